@@ -6,7 +6,7 @@
    BLAKE2b-256 has a fixed positive output length, a scheme has one public-key length. *)
 From Coq Require Import String ZArith List Bool Lia Permutation Sorted.
 From DV Require Import Model.ByteEnc Model.HashVocab Gen.HashOrder Model.Hashes Proofs.HashesProofs
-  Model.CodecVocab Model.Codec Proofs.CodecProofs Gen.Mirrors Props.C20.
+  Model.CodecVocab Model.Codec Proofs.CodecProofs Gen.Mirrors Proofs.CodecGen Props.C20.
 Import ListNotations.
 Open Scope string_scope.
 Open Scope Z_scope.
@@ -108,30 +108,6 @@ Proof. intros hp hs r G. simpl. rewrite G. reflexivity. Qed.
 Print Assumptions C17_decode_absent_hash_unchecked.
 
 (* ---- every encoding path gives the same chain hash ---- *)
-Definition bytes_of (v : option val) : bytes := match v with Some (VBytes b) => b | _ => [] end.
-Definition int_of (v : option val) : Z := match v with Some (VInt z) => z | _ => 0 end.
-Definition info_of_record (r : record) : minfo :=
-  {| i_pk := bytes_of (get ["PublicKey"] r); i_id := bytes_of (get ["ID"] r); i_period := int_of (get ["Period"] r);
-     i_scheme := bytes_of (get ["Scheme"] r); i_genesis := int_of (get ["GenesisTime"] r);
-     i_seed := bytes_of (get ["GenesisSeed"] r) |}.
-
-Definition plain (c : rtclass) : bool :=
-  match c with
-  | RExternal | RCanonID | RNested _ _ | ROptNested _ _ | RMapNested _ _ | RPartial _ => false
-  | _ => true
-  end.
-Lemma plain_cres : forall V c v, plain c = true -> cres V c v = v.
-Proof. intros V c v H. destruct c; try discriminate; reflexivity. Qed.
-
-Lemma norm_plain : forall V enc dec r,
-  forallb (fun l => match leaf_class enc dec l with Some c => plain c | None => true end) (map fst r) = true ->
-  norm_rec V enc dec r = r.
-Proof.
-  intros V enc dec r H. unfold norm_rec. rewrite <- (map_id r) at 2. apply map_ext_in.
-  intros [k v] I. simpl. rewrite forallb_forall in H. specialize (H k (in_map fst _ _ I)). simpl in H.
-  destruct (leaf_class enc dec k); auto. rewrite plain_cres; auto.
-Qed.
-
 (* protobuf packet and JSON form: a chain info comes back as the same value, hence with the same
    hash; group form: the chain info of a group and of the group read back from its file (whose id
    is canonicalised) have the same hash *)
